@@ -109,6 +109,68 @@ pub fn to_idl(v: &AV) -> IDLValue {
     }
 }
 
+/// The same value written the way a caller of the typed-untyped API may also write it: the
+/// re-annotation with the target type accepts a `nat` value or a bare number literal where
+/// the type says `int`, `null`/`reserved` for an absent option, anything at `reserved`, a
+/// float64 literal at `float32`, and omitted record fields of type null/opt/reserved.
+/// `seed == 0` is the exact form (`to_idl`).
+pub fn to_idl_loose(v: &AV, seed: u64) -> IDLValue {
+    if seed == 0 {
+        return to_idl(v);
+    }
+    let mut rng = crate::kernel::rng::Rng::new(seed);
+    loose(v, &mut rng)
+}
+
+fn loose(v: &AV, rng: &mut crate::kernel::rng::Rng) -> IDLValue {
+    match v {
+        AV::Int(s) if !s.starts_with('-') && rng.chance(1, 2) => IDLValue::Nat(Nat::parse(s.as_bytes()).expect("harness nat literal")),
+        AV::Int(s) | AV::Nat(s) if rng.chance(1, 4) => IDLValue::Number(s.clone()),
+        AV::NatN(_, x) if rng.chance(1, 6) => IDLValue::Number(x.to_string()),
+        AV::IntN(_, x) if rng.chance(1, 6) => IDLValue::Number(x.to_string()),
+        AV::Opt(None) => match rng.below(6) {
+            0 | 1 => IDLValue::Null,
+            2 => IDLValue::Reserved,
+            _ => IDLValue::None,
+        },
+        AV::Reserved => match rng.below(5) {
+            0 => IDLValue::Text("anything".into()),
+            1 => IDLValue::Nat(Nat::from(7u8)),
+            2 => IDLValue::Null,
+            3 => IDLValue::Vec(vec![IDLValue::Bool(true)]),
+            _ => IDLValue::Reserved,
+        },
+        AV::F32(b) if !f32::from_bits(*b).is_nan() && rng.chance(1, 3) => IDLValue::Float64(f32::from_bits(*b) as f64),
+        AV::Opt(Some(x)) => IDLValue::Opt(Box::new(loose(x, rng))),
+        AV::Vec(xs) => {
+            if !xs.is_empty() && xs.iter().all(|x| matches!(x, AV::NatN(8, _))) {
+                if rng.chance(1, 4) {
+                    IDLValue::Vec(xs.iter().map(|x| if let AV::NatN(8, b) = x { if rng.chance(1, 2) { IDLValue::Nat8(*b as u8) } else { IDLValue::Number(b.to_string()) } } else { IDLValue::Null }).collect())
+                } else {
+                    to_idl(v)
+                }
+            } else {
+                IDLValue::Vec(xs.iter().map(|x| loose(x, rng)).collect())
+            }
+        }
+        AV::Record(fs) => {
+            let mut out = Vec::new();
+            for (i, x) in fs {
+                if matches!(x, AV::Null | AV::Opt(None) | AV::Reserved) && rng.chance(1, 3) {
+                    continue;
+                }
+                out.push(IDLField { id: Label::Id(*i), val: loose(x, rng) });
+            }
+            if rng.chance(1, 2) {
+                out.reverse();
+            }
+            IDLValue::Record(out)
+        }
+        AV::Variant(i, x) => IDLValue::Variant(VariantValue(Box::new(IDLField { id: Label::Id(*i), val: loose(x, rng) }), rng.below(5))),
+        _ => to_idl(v),
+    }
+}
+
 fn dec(s: String) -> String {
     s.replace('_', "")
 }
